@@ -63,7 +63,7 @@ def source_info(get_pymodule: bool = False) -> Optional[SourceInfo]:
     for _ in range(MAX_DEPTH):
         if frame is None:
             return None
-        if frame.f_code.co_filename not in files_to_skip:
+        if frame.f_code.co_filename not in files_to_skip and not _in_pydantic(frame):
             # We've got a hit! Return a `SourceInfo` object.
 
             # If requested via the `get_pymodule` flag, return the Python module.
@@ -86,6 +86,14 @@ def source_info(get_pymodule: bool = False) -> Optional[SourceInfo]:
 # Calculated once, after import-time, so those modules can import this one.
 # files_to_skip: Optional[Set[str]] = None
 files_to_skip = None
+
+
+def _in_pydantic(frame: FrameType) -> bool:
+    """Boolean indication of whether `frame` is inside `pydantic`.
+    Several Hdl21 types are pydantic dataclasses, whose constructors are called *by* pydantic:
+    those frames sit between the Hdl21 type and the user code that created it."""
+    modname = frame.f_globals.get("__name__", None) or ""
+    return modname == "pydantic" or modname.startswith("pydantic.")
 
 
 def get_files_to_skip():
